@@ -123,6 +123,19 @@ def judge(ctx, dev, op, out, trace, state):
     faults = [e for e in dev['evs'] if e != 'n']
     if op[0] == 'entries':
         if faults:
+            # the log changes while it is read: whatever is returned must still be records exactly as the
+            # device stored them at some time during the call (never a mixture of two records), each at most once
+            if out.startswith('ok ') and out != 'ok -':
+                ever = set(log) | set(e[1:] for e in dev['evs'] if e.startswith('a'))
+                got = out[3:].split(',')
+                bad = [g for g in got if g not in ever]
+                if bad:
+                    ctx.violate('C12:get_sel_entries:entry-never-stored',
+                                'get_sel_entries returned an entry the device never stored (log changed while it was read)',
+                                case, expected='only records of the log (before or after the change)', observed=bad[0])
+                elif len(set(got)) != len(got):
+                    ctx.violate('C12:get_sel_entries:duplicate', 'get_sel_entries returned a record twice', case,
+                                expected='each record at most once', observed=out[:300])
             return
         exp = 'ok ' + (','.join(log) if log else '-')
         if out != exp:
@@ -303,6 +316,17 @@ def run(ctx):
         dev['cur'] = rng.choice([1, 0xFFFF, rng.randrange(1, 0x10000)])
         rid = rng.choice([0, 0xFFFF] + [_eid(h) for h in dev['log']])
         go(dev, ['get', str(rid), str(dev['cur'])], 'get')
+    # 2b. listing with one cancellation / deletion / addition before every request index (partial and whole reads)
+    for _ in range(12 if quick else 120):
+        dev = gen_device(rng, rng.choice([2, 2, 3, 4]))
+        if rng.random() < 0.7:
+            dev['whole'], dev['limit'] = False, rng.choice([1, 5, 8, 8, 15, rng.randrange(1, 16)])
+        out, trace = go(dev, ['entries'], 'entries-clean')
+        for k in range(min(len(trace) + 1, 24)):
+            for ev in ('c', 'd', 'a'):
+                d2 = dict(dev)
+                d2['evs'] = ['n'] * k + [ev if ev != 'a' else 'a' + _fresh_entry(rng, dev)]
+                go(d2, ['entries'], 'entries-one-fault')
     # 3. get-and-clear: fault-free, then one cancellation / change before every request index
     for _ in range(25 if quick else 200):
         dev = gen_device(rng, rng.choice([1, 2, 3, 6]))
